@@ -614,6 +614,60 @@ theorem C05_translator_unrecorded_pin :
 /-- every site that bakes a parameter value into a translator records it on the ROOT translator (regenerated from sqltranslation.py) -/
 theorem C05_pins_recorded_at_root : CacheKeys.pinsRecordedAtRoot = true := by decide
 
+/-! ### aggregates: what is cached is the value that is returned -/
+
+private theorem tget_tdel_ne_gen {K V : Type} [DecidableEq K] (a b : K) (t : Table K V) (hb : b ≠ a) : tget a (tdel b t) = tget a t := by
+  induction t with
+  | nil => rfl
+  | cons x xs ih =>
+    obtain ⟨k, w⟩ := x
+    by_cases hk : k = b
+    · have hka : ¬ k = a := fun e => hb (hk ▸ e)
+      simp only [tdel, hk, if_true, ih]
+      simp only [tget, hk ▸ hka, if_false]
+    · simp only [tdel, hk, if_false, tget, ih]
+
+/-- `Query._aggregate` as it is: the value stored in `cache.query_results` is the post-processed one (SUM default, `sql2py`), so for
+    EVERY history of aggregate calls, every fetch function and every post-processing, each call returns the post-processed fetch — value and type -/
+theorem C05_aggregate_cached_value {I V : Type} [DecidableEq I] (raw : I → V) (post : I → V → V) (hist : List I) :
+    aggRun false raw post [] hist = hist.map (fun i => post i (raw i)) := by
+  suffices h : ∀ t : Table I V, (∀ k v, tget k t = some v → v = post k (raw k)) → aggRun false raw post t hist = hist.map (fun i => post i (raw i)) from
+    h [] (by intro k v hk; simp [tget] at hk)
+  induction hist with
+  | nil => intro t _; rfl
+  | cons i rest ih =>
+    intro t ht
+    simp only [aggRun, aggCall, List.map_cons]
+    cases hg : tget i t with
+    | some v =>
+      simp only
+      rw [ht i v hg, ih t ht]
+    | none =>
+      simp only [Bool.false_eq_true, if_false]
+      rw [ih]
+      intro k v hk
+      by_cases hki : i = k
+      · subst hki
+        simp only [tset, tget, if_true, Option.some.injEq] at hk
+        exact hk.symm
+      · have : tget k (tset i (post i (raw i)) t) = tget k t := by
+          simp only [tset, tget, hki, if_false]
+          exact tget_tdel_ne_gen k i t hki
+        exact ht k v (this ▸ hk)
+
+/-- storing the fetched value BEFORE the post-processing is observable as soon as the post-processing changes it: the second call
+    returns the raw value (a `str` instead of a `date`, `None` instead of 0) -/
+theorem C05_aggregate_raw_store_breaks {I V : Type} [DecidableEq I] (raw : I → V) (post : I → V → V) (i : I) (h : post i (raw i) ≠ raw i) :
+    aggRun true raw post [] [i, i] ≠ [i, i].map (fun i => post i (raw i)) := by
+  simp only [aggRun, aggCall, tget, if_true, tset, tdel, List.map_cons, List.map_nil]
+  intro hc
+  injection hc with _ h2
+  injection h2 with h3 _
+  exact h h3.symm
+
+/-- the store of `Query._aggregate` comes after the SUM default and after `converter.sql2py` (regenerated from core.py) -/
+theorem C05_aggregate_stores_final_value : CacheKeys.aggregateStoresFinalValue = true := by decide
+
 /-! ### the per-session result cache -/
 
 /-- FULL statement: for every history of modifications, queries (cacheable or not), flushes, commits, rollbacks, bulk
